@@ -420,3 +420,35 @@ def tree_model_vs_lxml(tier, seed):
     res.samples.append(dict(last_sequence=str(log)))
     res.distinct_nontrivial = len(seen)
     return res
+
+
+# ------------------------------------------------------------------------------------------------ C13: the engine runs when the shape-level operation is called
+@component(("C13", "C03"), "shapes.boolean_eager", "bounded")
+def boolean_eager(tier, seed):
+    """The interpreter evaluates generators eagerly, so laziness is invisible to shapes.boolean_glue; this native check pins it:
+    the operands are modified between the call and the consumption of the result, exactly as picosvg's own
+    p.update_path(op((p, q)), inplace=True) does."""
+    from picosvg import svg_types
+    from picosvg.svg_types import SVGPath
+
+    res = ComponentResult()
+    res.rule = "result of union / intersection / difference consumed AFTER the first operand was emptied == result consumed at once; update_path(op((p, q)), inplace=True) == update_path(op((p, q)))"
+    res.bound = "3 operations x 2 operand pairs"
+    pairs = [("M0,0 L10,0 L10,10 L0,10 Z", "M5,5 L15,5 L15,15 L5,15 Z"), ("M0,0 L8,0 L8,8 L0,8 Z M2,2 L6,2 L6,6 L2,6 Z", "M1,1 L4,1 L4,9 L1,9 Z")]
+    for name in ("union", "intersection", "difference"):
+        fn = getattr(svg_types, name)
+        for a, b in pairs:
+            res.evaluations += 1
+            res.distinct_nontrivial += 1
+            want = list(fn((SVGPath(d=a), SVGPath(d=b))))
+            p, q = SVGPath(d=a), SVGPath(d=b)
+            later = fn((p, q))
+            p.d = ""
+            got = list(later)
+            p2, q2 = SVGPath(d=a), SVGPath(d=b)
+            inplace = list(p2.update_path(fn((p2, q2)), inplace=True))
+            if got != want or inplace != list(SVGPath.from_commands(want)):
+                res.findings.append(Finding(key=f"shapes.boolean_eager:{name}", text=f"{name}: the result depends on when it is consumed: at once {str(want)[:80]}, after the operand was emptied {str(got)[:80]}",
+                                            replay=dict(op=name, a=a, b=b), confirmed=True))
+                break
+    return res
